@@ -2,6 +2,8 @@
 
 mod cli;
 mod fmtimpl;
+mod pure;
+mod render;
 
 use std::io::Read;
 use std::path::{Path, PathBuf};
@@ -32,6 +34,7 @@ trait Visitor {
 fn dispatch<V: Visitor>(id: &str, v: V) -> Option<V::R> {
     Some(match id {
         "C01" => v.visit(&SrcProp { which: Which::C01 }),
+        "C02" => v.visit(&render::C02),
         "C03" => v.visit(&SrcProp { which: Which::C03 }),
         "C04" => v.visit(&SrcProp { which: Which::C04 }),
         "C05" => v.visit(&C05),
@@ -46,6 +49,7 @@ fn dispatch<V: Visitor>(id: &str, v: V) -> Option<V::R> {
         "C14" => v.visit(&cli::CliProp { which: cli::CliWhich::C14 }),
         "C15" => v.visit(&cli::CliProp { which: cli::CliWhich::C15 }),
         "C16" => v.visit(&cli::CliProp { which: cli::CliWhich::C16 }),
+        "C17" => v.visit(&pure::C17),
         "C18" => v.visit(&C18),
         "C19" => v.visit(&SrcProp { which: Which::C19 }),
         _ => return None,
@@ -421,6 +425,7 @@ fn real_main(args: Vec<String>) -> i32 {
             }
             0
         }
+        Some("fmtone") => pure::fmtone_main(&fmtimpl::Real { stack: None }),
         Some("triggers") => {
             let src = read_stdin();
             let root = syn::parse(&src);
